@@ -65,8 +65,14 @@ def work(task):
         if opts.get("only"):
             todo = [ob for ob in todo if opts["only"] in ob.name]
         brep = None
+        n_unknown = 0
         for ob in todo:
-            verify.solve_obligation(ob, timeout_ms=opts.get("timeout_ms", 10000), use_cli=not opts.get("no_cli"))
+            # the command-line back ends (cvc5, z3 4.8) are a fallback for the odd unstable query, not for a
+            # function whose proof has collapsed: at most 2 fallbacks per function and run
+            verify.solve_obligation(ob, timeout_ms=opts.get("timeout_ms", 10000),
+                                    use_cli=(not opts.get("no_cli")) and n_unknown < 2)
+            if ob.status == "unknown":
+                n_unknown += 1
             rec = {"name": ob.name, "id": stable_id(ob.name), "kind": ob.kind, "status": ob.status, "backend": ob.backend,
                    "time_s": round(ob.time_s, 3), "line": ob.line, "note": ob.note}
             if ob.status in ("sat", "unknown") and ob.kind != "vacuity":
